@@ -250,7 +250,7 @@ def fmtScalar : Scalar → String
   | .str s => "'" ++ s ++ "'" | .node n => "N" ++ toString n | .rel r => fmtRel r
 
 def fmtVal : Val → String
-  | .list xs => "[" ++ "/".intercalate (xs.map fmtScalar) ++ "]"
+  | .list xs => "[" ++ "/".intercalate ((xs.map fmtScalar).mergeSort fun a b => !(b < a)) ++ "]"
   | .path ns _ => "P" ++ ">".intercalate (ns.map toString)
   | v => match v.toScalar? with | some s => fmtScalar s | none => "?"
 
@@ -263,11 +263,13 @@ def strListLt : List String → List String → Bool
 def sortRows (rows : List (List String)) : List (List String) :=
   rows.mergeSort fun a b => !strListLt b a
 
-def groupSort (k : Nat) : List (List String) → List (List String)
+def keyOf (idx : List Nat) (r : List String) : List String := idx.map fun i => r.getD i ""
+
+def groupSort (idx : List Nat) : List (List String) → List (List String)
   | [] => []
   | r :: rest =>
-    let same := rest.takeWhile fun x => x.take k == r.take k
-    sortRows (r :: same) ++ groupSort k (rest.drop same.length)
+    let same := rest.takeWhile fun x => keyOf idx x == keyOf idx r
+    sortRows (r :: same) ++ groupSort idx (rest.drop same.length)
 termination_by l => l.length
 decreasing_by simp [List.length_drop]; omega
 
@@ -276,7 +278,8 @@ def canonRows (mode : String) (rows : Table) : String :=
   let cols := match rows with | r :: _ => r.cols | [] => []
   let enc := rows.map fun r => r.vals.map fmtVal
   let enc := if mode == "bag" then sortRows enc
-    else if mode.startsWith "list:" then groupSort ((mode.drop 5).toString.toNat?.getD 0) enc else enc
+    else if mode.startsWith "list:" then
+      groupSort (((mode.drop 5).toString.splitOn ",").filterMap String.toNat?) enc else enc
   let body := if enc.isEmpty then "-" else ";".intercalate (enc.map (",".intercalate ·))
   "ok " ++ (if cols.isEmpty then "-" else ",".intercalate cols) ++ " " ++ toString rows.length ++ " " ++ body
 
